@@ -395,6 +395,16 @@ func (s *configurationStore) Watch(ctx context.Context, ch chan<- configapi.Conf
 			s.mu.Unlock()
 		}()
 
+		// Whichever way the watch ends, the channel is closed exactly once and the events the store may still
+		// hand to this watcher are drained: the store never blocks on a watcher that has gone away
+		defer func() {
+			close(ch)
+			go func() {
+				for range eventCh {
+				}
+			}()
+		}()
+
 		if options.replay {
 			if options.configurationID.Target.ID != "" {
 				entry, err := s.configurations.Get(ctx, getKey(options.configurationID))
@@ -407,23 +417,25 @@ func (s *configurationStore) Watch(ctx context.Context, ch chan<- configapi.Conf
 					configuration := entry.Value
 					configuration.Version = uint64(entry.Version)
 					if ctx.Err() != nil {
-						close(ch)
 						return
 					}
 					if err := s.populate(ctx, configuration); err != nil {
 						log.Error(err)
 						return
 					}
-					ch <- configapi.ConfigurationEvent{
+					select {
+					case ch <- configapi.ConfigurationEvent{
 						Type:          configapi.ConfigurationEvent_REPLAYED,
 						Configuration: *configuration,
+					}:
+					case <-ctx.Done():
+						return
 					}
 				}
 			} else {
 				entries, err := s.configurations.List(ctx)
 				if err != nil {
 					log.Error(err)
-					close(ch)
 					return
 				}
 				for {
@@ -436,7 +448,6 @@ func (s *configurationStore) Watch(ctx context.Context, ch chan<- configapi.Conf
 						continue
 					}
 					if ctx.Err() != nil {
-						close(ch)
 						return
 					}
 					configuration := entry.Value
@@ -445,9 +456,13 @@ func (s *configurationStore) Watch(ctx context.Context, ch chan<- configapi.Conf
 						log.Error(err)
 						return
 					}
-					ch <- configapi.ConfigurationEvent{
+					select {
+					case ch <- configapi.ConfigurationEvent{
 						Type:          configapi.ConfigurationEvent_REPLAYED,
 						Configuration: *configuration,
+					}:
+					case <-ctx.Done():
+						return
 					}
 				}
 			}
@@ -456,13 +471,12 @@ func (s *configurationStore) Watch(ctx context.Context, ch chan<- configapi.Conf
 		for {
 			select {
 			case event := <-eventCh:
-				ch <- event
+				select {
+				case ch <- event:
+				case <-ctx.Done():
+					return
+				}
 			case <-ctx.Done():
-				close(ch)
-				go func() {
-					for range eventCh {
-					}
-				}()
 				return
 			}
 		}
